@@ -44,7 +44,7 @@ def as_h(m: STensor) -> STensor:
         return symt.cat([m, symt.zeros(D, 1)], dim=1)
     if m.shape[1] == 1:
         return symt.cat([symt.eye(D), m], dim=1)
-    return m
+    return m.clone()
 
 
 def compose(b: STensor, a: STensor) -> STensor:
